@@ -50,8 +50,10 @@ func (c *regexpPatternChecker) VisitExpr(x ast.Expr) {
 		return
 	}
 
-	switch qualifiedName(call.Fun) {
-	case "regexp.Compile", "regexp.CompilePOSIX", "regexp.MustCompile", "regexp.MustCompilePosix":
+	info := c.ctx.TypesInfo
+	switch {
+	case isPkgFunc(info, call.Fun, "regexp", "Compile"), isPkgFunc(info, call.Fun, "regexp", "CompilePOSIX"),
+		isPkgFunc(info, call.Fun, "regexp", "MustCompile"), isPkgFunc(info, call.Fun, "regexp", "MustCompilePosix"):
 		if len(call.Args) == 0 {
 			return
 		}
